@@ -95,6 +95,54 @@ func runC08(c *Ctx) {
 			relHelper[origin(fn)] = relAcct{ki, vi}
 		}
 	}
+	// roomHelper: v is the result of an unexported method (makeRoom(size)) whose every return hands back a value that
+	// began as one of its integer parameters (the loop variable's initial edge) and that is known ≤ limit where it is
+	// returned; answers the argument that becomes that value
+	roomHelper := func(v ssa.Value) (ssa.Value, bool) {
+		call, ok := v.(*ssa.Call)
+		if !ok {
+			return nil, false
+		}
+		h := origin(staticCallee(&call.Call))
+		if h == nil || h.Blocks == nil || h.Object() == nil || h.Object().Exported() || h.Signature.Recv() == nil || !isNamedOrigin(h.Signature.Recv().Type(), cacheT) {
+			return nil, false
+		}
+		pi, nRet, okAll := -1, 0, true
+		allInstrs(h, func(in ssa.Instruction) {
+			ret, ok := in.(*ssa.Return)
+			if !ok || len(ret.Results) != 1 {
+				return
+			}
+			nRet++
+			r := ret.Results[0]
+			bounded := false
+			for _, cm := range cmpsAt(ret.Block()) {
+				if (cm.X == r && isLoad(cm.Y, limitF) && (cm.Op == token.LEQ || cm.Op == token.LSS)) || (cm.Y == r && isLoad(cm.X, limitF) && (cm.Op == token.GEQ || cm.Op == token.GTR)) {
+					bounded = true
+				}
+			}
+			from := -1
+			if ph, ok := r.(*ssa.Phi); ok {
+				for i, e := range ph.Edges {
+					if !ph.Block().Dominates(ph.Block().Preds[i]) {
+						for j, p := range h.Params {
+							if e == ssa.Value(p) {
+								from = j
+							}
+						}
+					}
+				}
+			}
+			if !bounded || from < 0 || (pi >= 0 && pi != from) {
+				okAll = false
+			}
+			pi = from
+		})
+		if !okAll || nRet == 0 || pi < 0 || pi >= len(call.Call.Args) {
+			return nil, false
+		}
+		return call.Call.Args[pi], true
+	}
 	isSizeOfCall := func(v ssa.Value) (ssa.Value, bool) {
 		call, ok := v.(*ssa.Call)
 		if !ok {
@@ -650,6 +698,10 @@ func runC08(c *Ctx) {
 							}
 							seen[v] = true
 							switch y := v.(type) {
+							case *ssa.Call:
+								if a, ok := roomHelper(y); ok {
+									walk(a)
+								}
 							case *ssa.Phi:
 								for _, e := range y.Edges {
 									walk(e)
@@ -708,6 +760,9 @@ func runC08(c *Ctx) {
 						}
 						if !okF && !strict && linBound(fn, x) {
 							okF = true
+						}
+						if _, ok := roomHelper(x.Val); ok && !okF {
+							okF = true // the helper returns only values it has seen ≤ limit
 						}
 						var why string
 						if !okF {
